@@ -379,6 +379,7 @@ func main() {
 				panic(err)
 			}
 			rr.PlainHTTP = true
+			rr.Client = reg.Client()
 			store = rr
 			r.Event("oci-round-trips-over-a-registry")
 		} else {
